@@ -2645,22 +2645,40 @@ def transform_compressible(items, constants, labels):
             return imm == value
         return inner
 
+    def stable_immediate(i, p, e):
+        # the immediate if a choice made on it here stays valid while labels keep
+        # moving (the compressed encoders check it again at the very end), else None
+        imm = i.imm
+        # a plain expression over constants, possibly inside %hi / %lo, is final
+        plain = imm.expr if isinstance(imm, (Hi, Lo)) else imm
+        if isinstance(plain, Arithmetic):
+            try:
+                return imm.eval(p, constants, i.line)
+            except AssemblerError:
+                return None
+        # the target of a jump or branch only moves closer from here on, and its
+        # 32-bit form needs the same alignment
+        if isinstance(i, (JTypeInstruction, BTypeInstruction)) and isinstance(imm, Offset):
+            if imm.reference in labels and imm.reference not in constants:
+                return eval_immediate(i, p, e)
+        return None
+
     def ImmNotEquals(value):
         def inner(i, p, e):
-            imm = eval_immediate(i, p, e)
-            return imm != value
+            imm = stable_immediate(i, p, e)
+            return imm is not None and imm != value
         return inner
 
     def ImmDivisibleBy(value):
         def inner(i, p, e):
-            imm = eval_immediate(i, p, e)
-            return imm % value == 0
+            imm = stable_immediate(i, p, e)
+            return imm is not None and imm % value == 0
         return inner
 
     def ImmBetween(lo, hi):
         def inner(i, p, e):
-            imm = eval_immediate(i, p, e)
-            return imm >= lo and imm <= hi
+            imm = stable_immediate(i, p, e)
+            return imm is not None and imm >= lo and imm <= hi
         return inner
 
     criteria = {
